@@ -252,6 +252,19 @@ def Instruments.run (s : Instruments) (fs : List Trade) : Instruments := fs.fold
 
 /-! ## Abstract spec of C02 (from the property text) -/
 
+/-- All fills are on instrument `i`. -/
+def OneInstrument (i : Nat) (fs : List Trade) : Prop := ∀ f ∈ fs, f.instrument = i
+
+instance (i : Nat) (fs : List Trade) : Decidable (OneInstrument i fs) := by
+  unfold OneInstrument; infer_instance
+
+/-- All fills have a positive quantity. (The property also says `price > 0` and `fee ≥ 0`; no
+theorem needs them, so they are not assumed.) -/
+def PosQty (fs : List Trade) : Prop := ∀ f ∈ fs, 0 < f.quantity
+
+instance (fs : List Trade) : Decidable (PosQty fs) := by
+  unfold PosQty; infer_instance
+
 /-- Signed quantity of a fill: `+q` for a buy, `−q` for a sell. -/
 def signedQty (t : Trade) : Rat :=
   match t.side with
@@ -281,6 +294,12 @@ def ReachesOrCrossesZero (before after : Rat) : Prop :=
 instance (b a : Rat) : Decidable (ReachesOrCrossesZero b a) := by
   unfold ReachesOrCrossesZero; infer_instance
 
+/-- How many fills of `fs` make the net quantity reach or cross zero, the net being `n` before. -/
+def zeroTouches (n : Rat) : List Trade → Nat
+  | [] => 0
+  | f :: fs =>
+    (if ReachesOrCrossesZero n (n + signedQty f) then 1 else 0) + zeroTouches (n + signedQty f) fs
+
 /-- The net quantity strictly changes sign ("a crossing fill"). -/
 def Crosses (before after : Rat) : Prop :=
   (0 < before ∧ after < 0) ∨ (before < 0 ∧ 0 < after)
@@ -291,6 +310,28 @@ instance (b a : Rat) : Decidable (Crosses b a) := by
 /-- Side of a non-zero net quantity. -/
 def sideOfNet (n : Rat) : Option Side :=
   if 0 < n then some .buy else if n < 0 then some .sell else none
+
+/-- The life of the currently open position as the fill history determines it: the net quantity,
+the ids of the fills that affected the position since it was opened (oldest first), the largest
+absolute net quantity reached since then, and the time of the opening fill. A position is opened by
+a fill that takes the net quantity away from zero or across zero; it ends when the net quantity
+returns to zero (or crosses, which opens the next one with the same fill). -/
+structure Life where
+  net : Rat
+  ids : List Nat
+  maxAbs : Rat
+  timeEnter : Int
+  deriving DecidableEq, Repr, Inhabited
+
+def Life.init : Life := ⟨0, [], 0, 0⟩
+
+def Life.step (l : Life) (f : Trade) : Life :=
+  let a := l.net + signedQty f
+  if l.net = 0 ∨ Crosses l.net a then ⟨a, [f.id], abs a, f.time⟩
+  else if a = 0 then Life.init
+  else ⟨a, l.ids ++ [f.id], if abs a > l.maxAbs then abs a else l.maxAbs, l.timeEnter⟩
+
+def life (fs : List Trade) : Life := fs.foldl Life.step Life.init
 
 /-! Observables of the concrete state the spec talks about. -/
 
